@@ -238,11 +238,25 @@ func rulePDF417Arith(c *Ctx) {
 				outer = b
 			}
 		}
+		stepping := false
+		if outer == nil {
+			// the loop may step through the digits by the chunk length: position = 44 * chunk number
+			for _, b := range fn.Blocks {
+				for _, lv := range loopShapes(n, b) {
+					if k, ok := lv.step.IsConst(); ok && k == 44 && pEqual(lv.init, pConst(0)) && outer == nil {
+						outer, stepping = b, true
+						n.env = append(n.env, map[ssa.Value]Poly{lv.idx: pMul(pConst(44), pAtom("ch"))})
+					}
+				}
+			}
+		}
 		if outer == nil {
 			c.Undecided(RN, "pdf417.encodeNumeric/chunks", fn.Pos(), "chunk loop not found")
 		} else {
-			idx, _, _, _ := loopIndex(outer)
-			n.Bind[idx] = "ch"
+			if !stepping {
+				idx, _, _, _ := loopIndex(outer)
+				n.Bind[idx] = "ch"
+			}
 			// inner loop accumulating the chunk's codewords: a slice-typed header phi inside the chunk loop
 			found := false
 			for _, b := range fn.Blocks {
